@@ -265,7 +265,7 @@ func newEngine(ld *loaded, j *Job) *Engine {
 			if p == modPath+"/cmd/gtree" && j.Pkg != "main" {
 				continue
 			}
-			if (p == "io" || p == "bufio") && !j.RealScan {
+			if p == "bufio" && !j.RealScan {
 				continue
 			}
 			eng.initPkgs[p] = true
